@@ -64,8 +64,9 @@ Fixpoint nodupb (seen : PM.t unit) (l : list N) : bool :=
   end.
 
 Definition wfb (g : graph) : bool :=
+  let m := build g in   (* built once *)
   nodupb (PM.empty unit) (map fst g) &&
-  forallb (fun e => forallb (has (build g)) (snd (snd e))) g.
+  forallb (fun e => forallb (has m) (snd (snd e))) g.
 
 Definition bad (k : kind) : bool :=
   match k with KPrng | KTime | KSeed => true | _ => false end.
